@@ -18,13 +18,67 @@ def _alarm(signum, frame):
     raise Timeout()
 
 
+class TooManyHangs(BaseException):
+    """the code under test gave no answer on several inputs: going on through thousands of
+    inputs at one time limit each would only delay the report"""
+
+
+HANG_LIMIT = 3
+_hangs = []
+_current = [None]
+
+
+def note_input(desc):
+    """what the code under test is about to be run on (kept for the report of a hang)"""
+    _current[0] = desc
+
+
+def record_hang(desc, decisive=False):
+    _hangs.append(desc)
+    if decisive or len(_hangs) >= HANG_LIMIT:
+        raise TooManyHangs()
+
+
 def with_timeout(fn, seconds):
     signal.signal(signal.SIGALRM, _alarm)
     signal.setitimer(signal.ITIMER_REAL, seconds)
     try:
         return fn()
+    except Timeout:
+        signal.setitimer(signal.ITIMER_REAL, 0)
+        record_hang(dict(_current[0] or {"kind": "unknown"}, seconds=seconds))
+        raise
     finally:
         signal.setitimer(signal.ITIMER_REAL, 0)
+
+
+def cli_timed_out(args, cwd, seconds):
+    """a command-line run that did not end: one is decisive (each costs a full time limit)"""
+    files = {}
+    try:
+        for root, _, names in os.walk(cwd):
+            for n in names:
+                full = os.path.join(root, n)
+                rel = os.path.relpath(full, cwd)
+                if ".git" + os.sep in rel or rel.startswith(".git"):
+                    continue
+                if len(files) < 24 and os.path.isfile(full) and os.path.getsize(full) < 8192:
+                    try:
+                        files[rel] = open(full, encoding="utf-8", errors="replace").read()
+                    except Exception:
+                        pass
+    except Exception:
+        pass
+    record_hang({"kind": "cli", "args": list(args), "files": files, "seconds": seconds}, decisive=True)
+
+
+def guarded_main(fn):
+    """entry point of every native harness: a run cut short by hangs answers with the inputs
+    that hung instead of a result"""
+    try:
+        fn()
+    except TooManyHangs:
+        sys.stdout.write(json.dumps({"aborted_after_hangs": _hangs}))
 
 
 _registry = None
@@ -47,6 +101,7 @@ def lex(text, name="a.c"):
     from norminette.file import File
     from norminette.lexer import Lexer
     f = File(name, text)
+    note_input({"kind": "lex", "text": text, "name": name})
     out = {"tokens": None, "errors": None, "exc": None}
     try:
         toks = with_timeout(lambda: list(Lexer(f)), 10)
@@ -68,6 +123,7 @@ def pipeline(text, name="a.c", debug=0, R=None, timeout=10, sorted_errors=True, 
     from norminette.context import Context
     from norminette.exceptions import CParsingError
     f = File(name, text)
+    note_input({"kind": "pipeline", "text": text, "name": name})
     out = {"status": None, "errors": [], "fatal": None, "exc": None, "stdout": ""}
     buf = io.StringIO()
     rl = sys.getrecursionlimit()
@@ -120,6 +176,7 @@ def rule_run(spec):
     from norminette.context import Context
     from norminette import scope as scope_mod
     toks = [Token(t[0], (t[1], t[2]), t[3]) for t in spec["tokens"]]
+    note_input({"kind": "rule", "spec": spec})
     f = File(spec.get("name", "a.c"), "")
     ctx = Context(f, toks, spec.get("debug", 0))
     mod = importlib.import_module(spec["module"])
@@ -183,6 +240,7 @@ def segments(text, name="a.c", debug=0, timeout=10):
     from norminette.context import Context
     from norminette.exceptions import CParsingError
     f = File(name, text)
+    note_input({"kind": "pipeline", "text": text, "name": name})
     out = {"n0": None, "pops": [], "fatal": None, "exc": None, "status": None, "scope_end": None, "segs": [], "depth": []}
     orig = Context.pop_tokens
 
@@ -247,4 +305,4 @@ def main():
 
 
 if __name__ == "__main__":
-    main()
+    guarded_main(main)
